@@ -20,6 +20,7 @@ import (
 	"time"
 
 	"github.com/attestantio/dirk/util/loggers"
+	"github.com/attestantio/dirk/util/verifhook"
 	badger "github.com/dgraph-io/badger/v2"
 	"github.com/dgraph-io/badger/v2/options"
 	"github.com/opentracing/opentracing-go"
@@ -129,6 +130,10 @@ func (s *Store) FetchAll(_ context.Context) (map[[49]byte][]byte, error) {
 func (s *Store) Fetch(ctx context.Context, key []byte) ([]byte, error) {
 	span, _ := opentracing.StartSpanFromContext(ctx, "storage.Fetch")
 	defer span.Finish()
+	if err := verifhook.Point(s, "fetch", key); err != nil {
+		return nil, err
+	}
+	defer verifhook.PointDone(s, "fetch", key)
 
 	if len(key) == 0 {
 		return nil, errors.New("no key provided")
@@ -165,6 +170,10 @@ func (s *Store) Fetch(ctx context.Context, key []byte) ([]byte, error) {
 func (s *Store) BatchStore(ctx context.Context, keys [][]byte, values [][]byte) error {
 	span, _ := opentracing.StartSpanFromContext(ctx, "storage.BatchStore")
 	defer span.Finish()
+	if err := verifhook.Point(s, "batchstore", nil); err != nil {
+		return err
+	}
+	defer verifhook.PointDone(s, "batchstore", nil)
 
 	if len(keys) == 0 {
 		return errors.New("no keys provided")
@@ -197,6 +206,10 @@ func (s *Store) BatchStore(ctx context.Context, keys [][]byte, values [][]byte) 
 func (s *Store) Store(ctx context.Context, key []byte, value []byte) error {
 	span, _ := opentracing.StartSpanFromContext(ctx, "storage.Store")
 	defer span.Finish()
+	if err := verifhook.Point(s, "store", key); err != nil {
+		return err
+	}
+	defer verifhook.PointDone(s, "store", key)
 
 	if len(key) == 0 {
 		return errors.New("no key provided")
